@@ -17,6 +17,7 @@ import DtnVerif.Lemmas.TcpclWake
 import DtnVerif.Lemmas.TcpclAgent
 import DtnVerif.Lemmas.TcpclQuietSys
 import DtnVerif.Lemmas.TcpclVariantSys
+import DtnVerif.Lemmas.TcpclKaSys
 namespace DtnVerif
 namespace Tcpcl
 
@@ -518,40 +519,42 @@ theorem C09_always_finishes (cfgA cfgB : Cfg) (sch int : List SysEv)
       · exact Var.enabledRun_sendOK _ _ hen ev h
     exact C09_stuck_closed cfgA cfgB (sch ++ int) a1 a2 a3 b1 b2 b3 hwf hs'
 
-/-- an endpoint configured without keepalive (`keepalive_time = 0`, the default) never sends a KEEPALIVE -/
+/-- when either side is configured without keepalive (`keepalive_time = 0`, the default) the negotiated
+    interval is zero and neither endpoint ever sends a KEEPALIVE -/
 theorem C09_no_keepalive_sent (cfgA cfgB : Cfg) (sch : List SysEv)
     (a1 : 0 < cfgA.segInit) (a2 : cfgA.privExt = false) (a3 : 0 < cfgA.segMru)
     (b1 : 0 < cfgB.segInit) (b2 : cfgB.privExt = false) (b3 : 0 < cfgB.segMru)
     (hwf : ∀ pre, pre <+: sch → SysWF (runSys (initSys cfgA cfgB) pre))
-    (hs : ∀ ev ∈ sch, ev.sendOK) :
+    (hs : ∀ ev ∈ sch, ev.sendOK) (hk : cfgA.keepalive = 0 ∨ cfgB.keepalive = 0) :
     let s := runSys (initSys cfgA cfgB) sch
-    (cfgA.keepalive = 0 → ∀ m ∈ s.a.emitted, m ≠ .keepalive)
-    ∧ (cfgB.keepalive = 0 → ∀ m ∈ s.b.emitted, m ≠ .keepalive) := by
+    (∀ m ∈ s.a.emitted, m ≠ .keepalive) ∧ (∀ m ∈ s.b.emitted, m ≠ .keepalive) := by
   intro s
-  have hi : SysInv s := sysInv_run sch _ (sysInv_init cfgA cfgB a1 a2 a3 b1 b2 b3) hwf hs
+  obtain ⟨ka, kb⟩ := sysKa_run sch cfgA cfgB a1 a2 a3 b1 b2 b3 hwf hs
   obtain ⟨c1, c2⟩ := Var.cfg_runSys sch (initSys cfgA cfgB)
   obtain ⟨d1, d2⟩ := Var.cfg_initSys cfgA cfgB
   have ca : s.a.cfg = cfgA := c1.trans d1
   have cb : s.b.cfg = cfgB := c2.trans d2
   constructor
-  · intro hk m hm heq
+  · intro m hm heq
     subst heq
-    have : 0 < s.a.cfg.keepalive := hi.ia.emit _ hm
-    rw [ca, hk] at this; exact absurd this (Nat.lt_irrefl 0)
-  · intro hk m hm heq
+    have : 0 < s.a.cfg.keepalive ∧ 0 < s.b.cfg.keepalive := ka _ hm
+    rw [ca, cb] at this
+    omega
+  · intro m hm heq
     subst heq
-    have : 0 < s.b.cfg.keepalive := hi.ib.emit _ hm
-    rw [cb, hk] at this; exact absurd this (Nat.lt_irrefl 0)
+    have : 0 < s.b.cfg.keepalive ∧ 0 < s.a.cfg.keepalive := kb _ hm
+    rw [ca, cb] at this
+    omega
 
-/-- **`C09_always_finishes` for the default configuration** (`keepalive_time = 0` on both sides), with
-    no premise about the run left: after any schedule, once termination has been requested or answered
-    by either side, at most `Var.mu` internal events happen, and when none is enabled any more both
-    endpoints have closed the connection. -/
+/-- **`C09_always_finishes` whenever keepalives are off** (`keepalive_time = 0` on either side — zero
+    is the default), with no premise about the run left: after any schedule, once termination has
+    been requested or answered by either side, at most `Var.mu` internal events happen, and when none
+    is enabled any more both endpoints have closed the connection. -/
 theorem C09_always_finishes_default (cfgA cfgB : Cfg) (sch int : List SysEv)
     (a1 : 0 < cfgA.segInit) (a2 : cfgA.privExt = false) (a3 : 0 < cfgA.segMru)
     (b1 : 0 < cfgB.segInit) (b2 : cfgB.privExt = false) (b3 : 0 < cfgB.segMru)
     (hpas : ¬ (cfgA.passive = true ∧ cfgB.passive = true))
-    (hka : cfgA.keepalive = 0) (hkb : cfgB.keepalive = 0)
+    (hk : cfgA.keepalive = 0 ∨ cfgB.keepalive = 0)
     (hwf : ∀ pre, pre <+: sch ++ int → SysWF (runSys (initSys cfgA cfgB) pre))
     (hs : ∀ ev ∈ sch, ev.sendOK)
     (hen : Var.EnabledRun (runSys (initSys cfgA cfgB) sch) int) :
@@ -568,8 +571,8 @@ theorem C09_always_finishes_default (cfgA cfgB : Cfg) (sch int : List SysEv)
     rcases List.mem_append.mp hev with h | h
     · exact hs ev h
     · exact Var.enabledRun_sendOK _ _ hen ev h
-  obtain ⟨na, nb⟩ := C09_no_keepalive_sent cfgA cfgB (sch ++ int) a1 a2 a3 b1 b2 b3 hwf hs'
-  exact h2 hst hterm (na hka) (nb hkb)
+  obtain ⟨na, nb⟩ := C09_no_keepalive_sent cfgA cfgB (sch ++ int) a1 a2 a3 b1 b2 b3 hwf hs' hk
+  exact h2 hst hterm na nb
 
 /-! non-vacuity of `C09_always_finishes`: A asks to terminate in the middle of a transfer (2 of 3 octets
     segmented) while B has a bundle queued and not started; 23 enabled internal events later nothing is
